@@ -138,3 +138,25 @@ pub fn via_text<T: serde::de::DeserializeOwned>(
 ) -> Result<T, serde_json::Error> {
     serde_json::from_str(&serde_json::to_string(v)?)
 }
+
+/// A reader that delivers `ok` bytes of `data` and then fails with an I/O error.
+pub struct FailingReader<'a> {
+    pub data: &'a [u8],
+    pub pos: usize,
+    pub ok: usize,
+}
+
+impl<'a> Read for FailingReader<'a> {
+    fn read(&mut self, buf: &mut [u8]) -> std::io::Result<usize> {
+        if self.pos >= self.ok.min(self.data.len()) {
+            return Err(std::io::Error::new(
+                std::io::ErrorKind::ConnectionReset,
+                "harness: injected read failure",
+            ));
+        }
+        let n = buf.len().min(3).min(self.ok.min(self.data.len()) - self.pos);
+        buf[..n].copy_from_slice(&self.data[self.pos..self.pos + n]);
+        self.pos += n;
+        Ok(n)
+    }
+}
